@@ -11,7 +11,7 @@ CONSTANTS
   IDSPACE = 2
   FirstID = 0
   OutModes = {"all"}
-  Deviations = {"F31"}
+  Deviations = {}
   RECORD = FALSE
   HIST = FALSE
 INVARIANTS NeverDeliversUnsent
